@@ -133,6 +133,28 @@ PROPS = {
         trusted_base=[SDK_TRUST, "only Paloma's own packages are walked by the inventory; interface calls are resolved conservatively by method name and implemented interface"],
         assumptions=["bonded stake stays below 2^63 ugrain (bounded by the bond-denom supply)"],
     ),
+    "C10": dict(
+        lean_modules=["PalomaModel.Props.C10"],
+        harness_test="TestC10",
+        n_quick=300, n_thorough=3000, thorough_seeds=6, timeout_quick=900,
+        spec_ops=[],
+        rule="pure layer: transformSnapshotToCompass / isEnoughToReachConsensus on arbitrary snapshots (stakes 1, equal, 2^53+-1, 2^62, 2^63, adversarial total*k = 1 mod 2^32, the float counterexample; validators with two accounts on one chain) through public entry points and the verif export; "
+             "keeper layer on the full app: bond / unbond / jail / external-account registration / chain activation / snapshot build / on-chain activation sequences, observing FindSnapshotByID for every id after every op and the UpdateValset messages in the queue; "
+             "distinct = distinct op text; non-trivial = a snapshot or valset was produced",
+        trusted_base=[SDK_TRUST, "staking state and relayer-pick success are inputs of the model (observed with the real calls)"],
+        assumptions=[],
+    ),
+    "C05": dict(
+        lean_modules=["PalomaModel.Props.C05"],
+        harness_test="TestC05",
+        n_quick=300, n_thorough=3000, thorough_seeds=6, timeout_quick=900,
+        spec_ops=[],
+        rule="random evm Message values of every action type and random skyway batches: the real Keccak256WithSignedMessage / GetCheckpoint digest vs the Lean Keccak-256 of the model's pre-image (ABI encoder model, proved injective); "
+             "single- and multi-field mutation sweep on the real functions (every delivered field must change the bytes); queue ids on a 3-chain full app (put / replace / remove across queues); distinct = distinct op text; all cases non-trivial",
+        trusted_base=["Keccak-256 collision freeness is a pointwise hypothesis (NoColl) of the binding theorems; the executable Lean Keccak is validated by test vectors and the correspondence",
+                      "go-ethereum abi.Arguments.Pack is modelled by Model/Abi.lean (validated by TestABI correspondence)"],
+        assumptions=["message-id theorems are stated for fewer than 2^64 enqueue operations (the counter is a uint64)"],
+    ),
 }
 
 LEVEL_TEXT = ("Lean 4 theorems (all inputs / histories / fault points, no bounds) about an executable model of the code; the model is tied to the Go code on "
